@@ -1,4 +1,75 @@
-(* placeholder until the proofs are integrated *)
-From LLTD Require Import BufProofs.
-Theorem C10_placeholder : True. Proof. exact I. Qed.
-Print Assumptions C10_placeholder.
+(* C10: probes emitted by one responder are observed by a peer responder.
+   Statements only: each theorem restates the full type of a lemma proved in coq/proofs and is closed by
+   `exact`; Print Assumptions beneath.  Regenerate with bin/genprops.py after a lemma changes. *)
+From LLTD Require Import BlockFun PropsEmit.
+
+Theorem C10_emitted_frame_parses :
+  forall (cA : pcfg) (d : emitee) (pad : list N),
+  4 <= length pad ->
+  exists h : hdr,
+  parse_hdr (probe_frame cA d ++ pad) = Some h /\
+  h_tos h = tos_discovery /\
+  h_opc h = probe_opcode d /\
+  h_edst h = d_dst d /\ h_esrc h = d_src d /\ h_rdst h = d_dst d /\ h_rsrc h = own cA /\ h_seq h = 0%N.
+Proof. exact parse_probe_frame. Qed.
+Print Assumptions C10_emitted_frame_parses.
+
+Theorem C10_peer_records :
+  forall (cA : pcfg) (ctxB : N) (cB : pcfg) (gB : gcfg) (mtuB : N) (d : emitee)
+  (pad : list N) (sB : ist),
+  4 <= length pad ->
+  d_type d = 0%N \/ d_type d = 1%N ->
+  d_dst d = own cB ->
+  let fr := probe_frame cA d ++ pad in
+  let ob := {| o_type := d_type d; o_rsrc := own cA; o_esrc := d_src d; o_edst := d_dst d |} in
+  snd (f_step ctxB cB gB mtuB sB fr) = [] /\
+  (see_full sB = false ->
+  existsb (obs_key_eqb ob) (see sB) = false -> see (fst (f_step ctxB cB gB mtuB sB fr)) = ob :: see sB) /\
+  (existsb (obs_key_eqb ob) (see sB) = true -> fst (f_step ctxB cB gB mtuB sB fr) = sB).
+Proof. exact C10_peer. Qed.
+Print Assumptions C10_peer_records.
+
+Theorem C10_peer_reports :
+  forall (cA : pcfg) (ctxB : N) (cB : pcfg) (gB : gcfg) (mtuB : N) (d : emitee)
+  (pad : list N) (sB : ist) (q : list N) (hq : hdr),
+  (576 <= mtuB <= 9216)%N ->
+  4 <= length pad ->
+  d_type d = 0%N \/ d_type d = 1%N ->
+  d_dst d = own cB ->
+  let fr := probe_frame cA d ++ pad in
+  let ob := {| o_type := d_type d; o_rsrc := own cA; o_esrc := d_src d; o_edst := d_dst d |} in
+  see_full sB = false ->
+  existsb (obs_key_eqb ob) (see sB) = false ->
+  parse_hdr q = Some hq ->
+  h_tos hq = tos_discovery ->
+  h_opc hq = opcode_query ->
+  let sB' := fst (f_step ctxB cB gB mtuB sB fr) in
+  snd (f_step ctxB cB gB mtuB sB' q) =
+  [tx ctxB
+  (qresp_frame cB hq (h_seq hq) (ob :: firstn (qcap mtuB - 1) (see sB))
+  (qcap mtuB <? S (length (see sB))))].
+Proof. exact C10_reported. Qed.
+Print Assumptions C10_peer_reports.
+
+Theorem C10_peer_reports_later :
+  forall (cA : pcfg) (ctxB : N) (cB : pcfg) (gB : gcfg) (mtuB : N) (d : emitee)
+  (pad : list N) (sB : ist) (mid : list (list N)) (q : list N) (hq : hdr),
+  (576 <= mtuB <= 9216)%N ->
+  4 <= length pad ->
+  d_type d = 0%N \/ d_type d = 1%N ->
+  d_dst d = own cB ->
+  let fr := probe_frame cA d ++ pad in
+  let ob := {| o_type := d_type d; o_rsrc := own cA; o_esrc := d_src d; o_edst := d_dst d |} in
+  see_full sB = false ->
+  existsb (obs_key_eqb ob) (see sB) = false ->
+  Forall (fun buf : list N => forall h : hdr, parse_hdr buf = Some h -> ~ drains_see h) mid ->
+  parse_hdr q = Some hq ->
+  h_tos hq = tos_discovery ->
+  h_opc hq = opcode_query ->
+  let sB' := fst (f_run ctxB cB gB mtuB (fst (f_step ctxB cB gB mtuB sB fr)) mid) in
+  length (see sB') <= qcap mtuB ->
+  exists reported : list obs,
+  snd (f_step ctxB cB gB mtuB sB' q) = [tx ctxB (qresp_frame cB hq (h_seq hq) reported false)] /\
+  In ob reported.
+Proof. exact C10_reported_later. Qed.
+Print Assumptions C10_peer_reports_later.
